@@ -195,6 +195,61 @@ def eval_dag(dag):
     return None, incons
 
 
+def eval_dag_root(item):
+    """A DAG in which one node names the root explicitly among its bases, at
+    a given position (``class L(Interface, IFoo)``): before another base no C3
+    order exists (CPython refuses the mirrored classes), at the end it changes
+    nothing."""
+    dag, k, j = item
+    newworld()
+    n = len(dag)
+    bases = {i: list(bs) or ['R'] for i, bs in enumerate(dag)}
+    bases[k] = list(dag[k][:j]) + ['R'] + list(dag[k][j:])
+    bases['R'] = []
+    memo = {}
+    exps = {i: gen.c3_or_none(i, bases, memo) for i in range(n)}
+    # CPython on the mirrored hierarchy
+    K = {}
+    for i in range(n):
+        bs = [('R' if b == 'R' else K.get(b)) for b in bases[i]]
+        if any(b is None for b in bs):
+            ok = False
+        else:
+            try:
+                K[i] = type('K%d' % i, tuple(object if b == 'R' else b for b in bs), {})
+                ok = True
+            except TypeError:
+                ok = False
+        if ok != (exps[i] is not None):
+            return ('ORACLES-DISAGREE-existence', i), 0
+    I = []
+    names = {id(Interface): 'R'}
+    incons = 0
+    for i in range(n):
+        try:
+            x = IC('N%d' % i, tuple(Interface if b == 'R' else I[b] for b in bases[i]),
+                   {'__module__': wmod()})
+        except ro.InconsistentResolutionOrderError:
+            if MODE == 'strict' and exps[i] is None:
+                return None, incons + 1
+            return ('construction-raised-although-C3-exists', i), incons
+        if MODE == 'strict' and exps[i] is None:
+            return ('strict-env-accepted-inconsistent-node', i), incons
+        I.append(x)
+        names[id(x)] = i
+    for i in range(n):
+        v = check_spec(I[i], names, lambda x: True, memo, bases)
+        if v:
+            return v, incons
+        if exps[i] is None:
+            incons += 1
+        if MODE == 'default':
+            v = check_ro_functions(I[i], names, exps[i], i, bases)
+            if v:
+                return v, incons
+    return None, incons
+
+
 def evaluate(arg):
     kind, items = arg
     viol = []
@@ -216,6 +271,16 @@ def evaluate(arg):
                     if len(gen.ancestors(k, b)) != k + 1:
                         continue
                 cases.append(tuple(pre) + (bs,))
+        elif kind == 'dagroot':
+            cases = None
+            n += 1
+            nodes += len(it[0])
+            v, inc = eval_dag_root(it)
+            incons += inc
+            if v:
+                viol.append(dict(sig='C03:explicit-root:' + v[0], case=dict(kind='dagroot', item=it, mode=MODE),
+                                 detail=dict(dag=it[0], node=it[1], root_at=it[2], violation=v, mode=MODE)))
+            continue
         elif kind == 'cls':
             cases = None
             v, m = eval_classes(it)
@@ -287,6 +352,10 @@ def replay(case):
         return c02.replay(case)
     if case.get('mode') and case['mode'] != MODE:
         return dict(error='replay needs mode %s' % case['mode'])
+    if case['kind'] == 'dagroot':
+        dag, k, j = case['item']
+        v, _ = eval_dag_root((tuple(tuple(b) for b in dag), k, j))
+        return dict(violation=v, case=case) if v else None
     if case['kind'] == 'cls':
         dag, decls = case['item']
         v, _ = eval_classes((tuple(tuple(b) for b in dag), tuple(tuple(d) for d in decls)))
@@ -318,6 +387,11 @@ def run(ctx):
         # that has all other nodes as ancestors, base list <= 3
         pre = list(gen.dags(5, 3))
         jobs += [('prefix', [(p, 3, True) for p in c]) for c in chunks(pre, 40)]
+    # the root named explicitly among the bases of one node, at every position
+    rn = 3 if quick else 4
+    root_items = [(d, k, j) for kk in range(1, rn + 1) for d in gen.dags(kk, 2)
+                  for k in range(kk) if d[k] for j in range(len(d[k]) + 1)]
+    jobs += [('dagroot', c) for c in chunks(root_items, 200)]
     # class hierarchies: DAGs n<=3 (quick) / 4 (thorough) x declarations
     cn = 3 if quick else 4
     dopts = [(), ('J0',), ('J1',), ('J3',), ('J1', 'J2')] if quick else \
@@ -330,7 +404,7 @@ def run(ctx):
             if mode != 'default' and impl == 'py' and quick:
                 continue
             if mode in ('log', 'track', 'falsy') and quick:
-                jobs_mode = [j for j in jobs if j[0] == 'dag']
+                jobs_mode = [j for j in jobs if j[0] in ('dag', 'dagroot')]
             else:
                 jobs_mode = jobs
             js = jobs_mode if mode != 'strict' else [j for j in jobs_mode if j[0] != 'cls']
